@@ -463,22 +463,27 @@ def h_for_cu(ctx):
     offs = []
     wants = []
     for u in range(2):
-        hb, want = gen_header(ctx, ver, False, little, addr, shape, nm='h%d' % u, strtabs={'line_strp': STRTAB, 'strp': STRTAB})
-        unit = wrap_unit(hb + [0x01] * (u + 1), False, little)
+        # the line programs of a unit use the unit's DWARF format
+        hb, want = gen_header(ctx, ver, cfg.get('cu_fmt64', False), little, addr, shape, nm='h%d' % u, strtabs={'line_strp': STRTAB, 'strp': STRTAB})
+        unit = wrap_unit(hb + [0x01] * (u + 1), cfg.get('cu_fmt64', False), little)
         offs.append(len(secs))
         wants.append(want)
         secs += unit
     which = ctx.int_range('which', 0, 1)
     stmt = ctx.select(offs, which)
     # minimal CU: header + one DIE (abbrev 1: DW_TAG_compile_unit, no children, DW_AT_stmt_list as data4/sec_offset)
-    form = 0x17 if ver >= 4 else 0x06
+    # class lineptr: DW_FORM_sec_offset from DWARF 4 on; before that DW_FORM_data4 in the 32-bit and DW_FORM_data8 in the 64-bit format
+    fmt64 = cfg.get('cu_fmt64', False)
+    osz = 8 if fmt64 else 4
+    form = 0x17 if ver >= 4 else (0x07 if fmt64 else 0x06)
     abbrev = [1, 0x11, 0, 0x10, form, 0, 0, 0]
-    die = [1] + enc.enc_int(stmt, 4, little)
+    die = [1] + enc.enc_int(stmt, osz, little)
     if ver >= 5:
-        hdr = enc.enc_int(ver, 2, little) + [1, addr] + enc.enc_int(0, 4, little)
+        hdr = enc.enc_int(ver, 2, little) + [1, addr] + enc.enc_int(0, osz, little)
     else:
-        hdr = enc.enc_int(ver, 2, little) + enc.enc_int(0, 4, little) + [addr]
-    info = enc.enc_int(len(hdr) + len(die), 4, little) + hdr + die
+        hdr = enc.enc_int(ver, 2, little) + enc.enc_int(0, osz, little) + [addr]
+    n = len(hdr) + len(die)
+    info = (([0xff] * 4 + enc.enc_int(n, 8, little)) if fmt64 else enc.enc_int(n, 4, little)) + hdr + die
     di, streams = mk_dwarfinfo(ctx, little, addr, debug_info=info, debug_abbrev=abbrev, debug_line=secs, debug_line_str=STRTAB, debug_str=STRTAB)
     cu = next(di.iter_CUs())
     lp = di.line_program_for_CU(cu)
@@ -593,6 +598,6 @@ HARNESSES = [
     H('h5_3_seq', h_seq, _seq_instances, expect=('ok',),
       desc='whole programs (0-5 instructions, symbolic operands, symbolic header scalars) through the real header parser: rows equal the fold of the '
            'reference step; end_sequence resets; define_file extends the file table; unknown extended opcodes skipped by length; two programs per section'),
-    H('h5_4_for_cu', h_for_cu, lambda tier: [dict(little=l, addr=a, ver=v) for (l, a) in ((True, 8), (False, 4)) for v in (3, 4, 5)], expect=('ok',),
+    H('h5_4_for_cu', h_for_cu, lambda tier: [dict(little=l, addr=a, ver=v, cu_fmt64=f) for (l, a) in ((True, 8), (False, 4)) for v in (2, 3, 4, 5) for f in (False, True)], expect=('ok',),
       desc='line_program_for_CU returns the program at the (symbolic) DW_AT_stmt_list offset; second request returns the same object'),
 ]
